@@ -226,6 +226,21 @@ pub fn generate(seed: u64, index: u64, cart_type: u8, rom_code: u8) -> Program {
     }
   }
 
+  // ---- restart routines at 0x00, 0x08 .. 0x38: up to 6 bytes of filler and RET
+  for k in 0..8usize {
+    let mut v = Asm::new((k * 8) as u16);
+    let mut vrng = Rng::from(&[seed, index, k as u64, 78]);
+    v.b(&[0x0c]); // INC C
+    while v.bytes.len() < 1 + (k % 4) {
+      v.b(&[*vrng.pick(&[0x3cu8, 0x0d, 0x14, 0x1d, 0x07, 0x2f, 0x37, 0x81, 0xa9])]);
+    }
+    v.b(&[0xc9]);
+    for i in 0..8 {
+      image[k * 8 + i] = 0x00;
+    }
+    image[k * 8..k * 8 + v.bytes.len()].copy_from_slice(&v.bytes);
+  }
+
   // ---- entry and init
   image[0x100] = 0x00;
   image[0x101] = 0xc3;
@@ -274,7 +289,100 @@ pub fn generate(seed: u64, index: u64, cart_type: u8, rom_code: u8) -> Program {
     if a.here() > 0x0e00 {
       break;
     }
-    match rng.below(14) {
+    match rng.below(22) {
+      14 => {
+        // software interrupt request: IF written by the program
+        a.ld_a(rng.u8() & 0x1f);
+        a.ldh_to(0x0f);
+        f.ei_di += 1;
+        desc.push_str("if-write ");
+      }
+      15 => {
+        // RST to a small routine in the restart area
+        a.b(&[*rng.pick(&[0xc7u8, 0xcf, 0xd7, 0xdf, 0xe7, 0xef, 0xf7, 0xff])]);
+        f.calls += 1;
+        desc.push_str("rst ");
+      }
+      16 => {
+        // EI;HALT, DI;HALT and STOP: VBlank stays enabled in IE, so each wakes up
+        match rng.below(3) {
+          0 => a.b(&[0xfb, 0x76]),
+          1 => a.b(&[0xf3, 0x76, 0x00, 0xfb]),
+          _ => a.b(&[0x10, 0x00]),
+        }
+        f.halts += 1;
+        desc.push_str("halt2 ");
+      }
+      17 => {
+        // IE rewritten mid-program, VBlank always stays enabled
+        a.ld_a(0x01 | (rng.u8() & 0x1e));
+        a.ldh_to(0xff);
+        desc.push_str("ie-write ");
+      }
+      18 => {
+        // JP (HL) / JR / conditional JP forward over a few trap bytes
+        let kind = rng.below(3);
+        let skip = 1 + rng.below(3) as u16;
+        match kind {
+          0 => {
+            let target = a.here() + 4 + skip;
+            a.ld_hl(target);
+            a.b(&[0xe9]);
+          }
+          1 => a.b(&[0x18, skip as u8]),
+          _ => {
+            // JP cc,target ; JP target : both lead to the same place
+            let target = a.here() + 6 + skip;
+            a.b(&[*rng.pick(&[0xc2u8, 0xca, 0xd2, 0xda]), target as u8, (target >> 8) as u8]);
+            a.jp(target);
+          }
+        }
+        for _ in 0..skip {
+          a.b(&[0x76]);
+        }
+        desc.push_str("jump ");
+      }
+      19 => {
+        // stack pointer arithmetic and stores
+        match rng.below(3) {
+          0 => {
+            let e = rng.below(8) as u8;
+            a.b(&[0xe8, e.wrapping_neg(), 0xe8, e]); // ADD SP,-e ; ADD SP,e
+          }
+          1 => a.b(&[0xf8, rng.u8(), 0x7c, 0x85, 0x4f]), // LD HL,SP+e ; LD A,H ; ADD A,L ; LD C,A
+          _ => a.b(&[0x08, 0x80 + rng.below(0x40) as u8, 0xc2]), // LD (0xC28x),SP
+        }
+        desc.push_str("sp ");
+      }
+      20 => {
+        // interrupt handler state observed by the main program
+        a.ldh_from(0x90 + rng.below(5) as u8);
+        a.b(&[0x81, 0x4f]); // ADD A,C ; LD C,A
+        f.device_reads += 1;
+        desc.push_str("irq-count ");
+      }
+      21 => {
+        // LCD switched off and on again, or STAT enables / LYC changed
+        match rng.below(3) {
+          0 => {
+            a.ld_a(0x11);
+            a.ldh_to(0x40);
+            let k = 1 + rng.below(6) as usize;
+            filler(&mut rng, &mut a, k);
+            a.ld_a(0x91);
+            a.ldh_to(0x40);
+          }
+          1 => {
+            a.ld_a(*rng.pick(&[0x00u8, 0x08, 0x10, 0x20, 0x40, 0x78]));
+            a.ldh_to(0x41);
+          }
+          _ => {
+            a.ld_a(rng.below(154) as u8);
+            a.ldh_to(0x45);
+          }
+        }
+        desc.push_str("lcd ");
+      }
       0 | 1 => {
         let k = 1 + rng.below(8) as usize;
         filler(&mut rng, &mut a, k);
